@@ -1000,6 +1000,292 @@ def nudge_family(rng, spec, path, fname, vals=None, other=None):
     return fails, vals, specs, other
 
 
+# ------------------------------------------------------------------ read-only call histories
+# Mechanism class: PER-INSTANCE STATE THAT READ-ONLY CALLS LEAVE BEHIND (a remembered drawing, a cached_property, an lru
+# cache, a memo on a hole / member / Coordinate shared with copies) leaking into __eq__ / __hash__ / copy() / pickle, so
+# that what a shape compares or hashes to depends on what was ASKED of it before, not only on its defining fields.
+# Two identically built twins; one of them (or one of its holes / members / a copy or drawing that shares sub-objects with
+# it) receives a history of ordinary public read-only calls, with the default and with explicit resolutions k; the other
+# is never touched.  The property is then judged on the pair: equal both ways, equal hash, hash unchanged since before the
+# history (found again in the set / dict it was put into), copy() and every pickle / copy-module route equal with equal
+# hash, set / dict collapse, multi-shape equality with reordered members using the twin - for the shape itself and for
+# every hole / member of it.  Histories: (i) a systematic sweep - every call of the catalogue x {default, k=None, a small
+# and a large k} x every place of the object graph, one call each; (ii) random sequences, judged after each of two segments
+# (so a later call that happens to "heal" the object does not hide a drift in between).
+HKINDS = KINDS + ['wedge0', 'wedgeN', 'polycurved', 'mcurved']
+CURVED_HKINDS = ('circle', 'ellipse', 'ring', 'wedge', 'wedge0', 'wedgeN', 'polycurved', 'mcurved')
+KS = [3, 4, 8, 10, 17, 36, 60, 90]
+
+
+def set_angles(spec, a0, a1):
+    return spec[:4] + [a0, a1] + spec[6:]
+
+
+def curved_hole(rng, ox, cy, kind=None):
+    k = kind or rng.choice(['circle', 'ellipse', 'ring', 'wedge', 'wedge0'])
+    c = [ox + rng.choice([0, .25, .5]), cy + rng.choice([0, .25])]
+    if k == 'circle':
+        return ['circle', c, rng.choice([100, 250.5, 1000]), [], None]
+    if k == 'ellipse':
+        return ['ellipse', c, rng.choice([900, 1200.5]), rng.choice([300, 450.25]), rng.choice([45, 10.5]), [], None]
+    a0, a1 = {'ring': (0, 360), 'wedge': (rng.choice([15, 45.5]), rng.choice([140, 200.25])), 'wedge0': (0, rng.choice([90, 200.25]))}[k]
+    return ['ring', c, rng.choice([50, 120.5]), rng.choice([400, 900.25]), a0, a1, [], None]
+
+
+def history_spec(rng, kind):
+    """plain_spec plus the curved cases it does not draw: wedges starting at 0 degrees (centroid = centre: the other branch of
+    GeoRing.centroid), wedges through north / with a negative start / ending at 360, polygons with circle / ellipse / ring /
+    wedge holes, multi-polygons of curved members (with holes)"""
+    if kind in KINDS:
+        return plain_spec(rng, kind)
+    if kind == 'wedge0':
+        return set_angles(plain_spec(rng, 'wedge'), 0, rng.choice([90, 200.25, 359.75]))
+    if kind == 'wedgeN':
+        return set_angles(plain_spec(rng, 'wedge'), *rng.choice([(350, 370), (-20.5, 30), (90, 360), (180.25, 540)]))
+    if kind == 'polycurved':
+        g = plain_spec(rng, 'poly', holes=0)
+        cx, cy = int(g[1][0][0]), int(g[1][0][1])
+        return ['poly', g[1], [curved_hole(rng, cx - 3 + 6 * j, cy) for j in range(rng.choice([1, 2, 2]))], None]
+    ms = []
+    for i in range(rng.choice([2, 2, 3])):
+        while True:
+            mk = rng.choice(['wedge', 'wedge0', 'ring']) if i == 0 else rng.choice(['circle', 'ellipse', 'ring', 'wedge', 'wedge0', 'wedgeN', 'box', 'poly'])
+            m = history_spec(rng, mk)
+            hp = HOLEPOS[m[0]]
+            if rng.random() < .3:
+                m = m[:hp] + [[curved_hole(rng, 0, 0)]] + m[hp + 1:]
+            elif rng.random() < .6:
+                m = m[:hp] + [[]] + m[hp + 1:]
+            if not any(json.dumps(m) == json.dumps(x) for x in ms):
+                break
+        ms.append(m)
+    return ['mpoly', ms, None]
+
+
+def resolve(s, path):
+    """a place of the object graph reachable through public attributes: a hole, a member, a copy() (shares holes, coordinates),
+    the drawn polygon (shares holes)"""
+    for step in path:
+        if step[0] == 'hole':
+            s = s.holes[step[1]]
+        elif step[0] == 'member':
+            s = s.geoshapes[step[1]]
+        elif step[0] == 'copy':
+            s = s.copy()
+        elif step[0] == 'polygon':
+            s = s.to_polygon()
+        else:
+            raise ValueError(step)
+    return s
+
+
+def places(s):
+    """every hole / member / hole of a member of s, as paths"""
+    P = [[]]
+    for j, m in enumerate(getattr(s, 'geoshapes', [])):
+        P.append([['member', j]])
+        P += [[['member', j], ['hole', i]] for i in range(len(getattr(m, 'holes', [])))]
+    P += [[['hole', i]] for i in range(len(getattr(s, 'holes', [])))]
+    return P
+
+
+# the catalogue of public read-only calls: name -> (accepts k, call(shape, kwargs, aux)); aux: a probe coordinate, a small box
+# and a circle about it (both inside the bounds of the shape under test), a far box, two instants
+OPS = {
+    'to_polygon': (1, lambda s, kw, x: s.to_polygon(**kw)),
+    'to_polygon.centroid': (1, lambda s, kw, x: s.to_polygon(**kw).centroid),
+    'to_wkt': (1, lambda s, kw, x: s.to_wkt(**kw)),
+    'to_geojson': (1, lambda s, kw, x: s.to_geojson(**kw)),
+    'to_geojson(include_bbox)': (1, lambda s, kw, x: s.to_geojson(include_bbox=True, **kw)),
+    'to_geo_interface': (1, lambda s, kw, x: s.to_geo_interface(**kw)),
+    'bounding_coords': (1, lambda s, kw, x: s.bounding_coords(**kw)),
+    'bounding_edges': (1, lambda s, kw, x: s.bounding_edges(**kw)),
+    'linear_rings': (1, lambda s, kw, x: s.linear_rings(**kw)),
+    'edges': (1, lambda s, kw, x: s.edges(**kw)),
+    'convex_hull': (1, lambda s, kw, x: s.convex_hull(**kw)),
+    'contains_shape(box)': (1, lambda s, kw, x: s.contains_shape(x['box'], **kw)),
+    'contains_shape(circle)': (1, lambda s, kw, x: s.contains_shape(x['circle'], **kw)),
+    'intersects_shape(circle)': (1, lambda s, kw, x: s.intersects_shape(x['circle'], **kw)),
+    'intersects_shape(far box)': (1, lambda s, kw, x: s.intersects_shape(x['far'], **kw)),
+    'intersects(circle)': (1, lambda s, kw, x: s.intersects(x['circle'], **kw)),
+    'intersects(box)': (1, lambda s, kw, x: s.intersects(x['box'], **kw)),
+    'circle.intersects_shape(s)': (1, lambda s, kw, x: x['circle'].intersects_shape(s, **kw)),
+    'circle.contains_shape(s)': (1, lambda s, kw, x: x['circle'].contains_shape(s, **kw)),
+    'far box.intersects(s)': (1, lambda s, kw, x: x['far'].intersects(s, **kw)),
+    'to_shapely': (1, lambda s, kw, x: s.to_shapely(**kw)),
+    'contains(box)': (0, lambda s, kw, x: s.contains(x['box'])),
+    'contains(probe)': (0, lambda s, kw, x: s.contains(x['probe'])),
+    'contains_coordinate': (0, lambda s, kw, x: s.contains_coordinate(x['probe'])),
+    'probe in s': (0, lambda s, kw, x: x['probe'] in s),
+    'box in s': (0, lambda s, kw, x: x['box'] in s),
+    'contains_time': (0, lambda s, kw, x: (s.contains_time(x['t0']), s.intersects_time(x['t1']))),
+    'area': (0, lambda s, kw, x: s.area),
+    'volume': (0, lambda s, kw, x: s.volume),
+    'bounds': (0, lambda s, kw, x: s.bounds),
+    'centroid': (0, lambda s, kw, x: s.centroid),
+    'has_z / has_m': (0, lambda s, kw, x: (s.has_z, s.has_m)),
+    'circumscribing_circle': (0, lambda s, kw, x: s.circumscribing_circle()),
+    'circumscribing_rectangle': (0, lambda s, kw, x: s.circumscribing_rectangle()),
+    '__geo_interface__': (0, lambda s, kw, x: s.__geo_interface__),
+    'segments': (0, lambda s, kw, x: s.segments),
+    'split': (0, lambda s, kw, x: s.split()),
+    'iter': (0, lambda s, kw, x: list(s)),
+    'properties / start / end': (0, lambda s, kw, x: (s.properties, guarded(lambda: s.start), guarded(lambda: s.end))),
+    'repr': (0, lambda s, kw, x: (repr(s), str(s))),
+    'hash': (0, lambda s, kw, x: hash(s)),
+    's == s.copy()': (0, lambda s, kw, x: (s == s.copy(), s != x['box'], s == 3)),
+    'copy': (0, lambda s, kw, x: s.copy()),
+    'copy.copy': (0, lambda s, kw, x: _copy.copy(s)),
+    'copy.deepcopy': (0, lambda s, kw, x: _copy.deepcopy(s)),
+    'pickle.dumps': (0, lambda s, kw, x: pickle.dumps(s)),
+    'set_dt(inplace=False)': (0, lambda s, kw, x: s.set_dt(x['t0'], inplace=False)),
+    'set_property(inplace=False)': (0, lambda s, kw, x: s.set_property('q', 1, inplace=False)),
+}
+
+
+def history_aux(spec):
+    t = build(spec)
+    b = guarded(lambda: t.bounds)
+    x, y = ((b[1][0] + b[1][2]) / 2, (b[1][1] + b[1][3]) / 2) if b[0] == 'Ok' else (8.25, 8.5)
+    return {'probe': Coordinate(x, y), 'box': GeoBox(Coordinate(x - .001, y + .001), Coordinate(x + .001, y - .001)),
+            'circle': GeoCircle(Coordinate(x, y), 150), 'far': GeoBox(Coordinate(100, 71), Coordinate(101, 70)),
+            't0': EPOCH, 't1': TimeInterval(EPOCH - timedelta(hours=1), EPOCH + timedelta(hours=1))}
+
+
+def random_history(rng, s, n):
+    """n steps [path, call, kwargs]; half of the calls that accept k get an explicit one"""
+    P = places(s)
+    names = list(OPS)
+    taking = [nm for nm in names if OPS[nm][0]]
+    steps = []
+    for _ in range(n):
+        path = list(rng.choice(P)) if rng.random() < .6 else []
+        r = rng.random()
+        if r < .15:
+            path = path + [['copy']]
+        elif r < .25:
+            path = path + [['polygon']]
+            if rng.random() < .5 and getattr(guarded(lambda: resolve(s, path))[1], 'holes', None):
+                path = path + [['hole', 0]]
+        nm = rng.choice(taking) if rng.random() < .6 else rng.choice(names)
+        kw = {}
+        if OPS[nm][0]:
+            r = rng.random()
+            kw = {} if r < .35 else ({'k': None} if r < .45 else {'k': rng.choice(KS)})
+        steps.append([path, nm, kw])
+    return steps
+
+
+def multi_class(s):
+    return MultiGeoPoint if isinstance(s, GeoPoint) else (MultiGeoLineString if isinstance(s, GeoLineString) else MultiGeoPolygon)
+
+
+def history_record(a):
+    """what is remembered BEFORE the history: the hash, a set and a dict holding the shape, the same for its holes / members"""
+    return {'h': hash(a), 'set': {a}, 'dict': {a: 'v'}, 'sub': [(hash(z), {z}) for z in subshapes(a)]}
+
+
+def history_light(a, b, rec, hb):
+    """the judgement made after EVERY call of a sweep: still equal to the twin both ways, same hash as the (never touched) twin,
+    same hash as before the calls - for the shape and for each of its holes / members"""
+    F = []
+    r = guarded(lambda: ((a == b) is True and (b == a) is True, hash(a)))
+    if r[0] != 'Ok':
+        return [('raises', f'a == b / hash(a) raised {r[1]}')]
+    if not r[1][0]:
+        F.append(('rewrite-equal', 'an identically built shape no longer compares equal (a == b, b == a)'))
+    if r[1][1] != hb:
+        F.append(('eq_hkey', 'hash(a) != hash(b) for the identically built, never touched twin b'))
+    if rec is not None:
+        if r[1][1] != rec['h']:
+            F.append(('hash-stable', 'hash(a) changed although no field was modified'))
+        for (h, _), z in zip(rec['sub'], subshapes(a)):
+            if guarded(lambda: hash(z)) != ('Ok', h):
+                F.append(('hash-stable', f'a hole / member ({type(z).__name__}) hashes differently than before the calls'))
+    return F
+
+
+def history_judge(a, b, rec, before, spec, sb, other, routes):
+    """the property on (shape with a history, untouched twin).  Returns [(clause, text)]"""
+    F = []
+
+    def law(clause, text, f):
+        r = guarded(f)
+        if r != ('Ok', True):
+            F.append((clause, text + ('' if r[0] == 'Ok' else f' (raised {r[1]})')))
+    law('reflexivity', 'a == a is not True', lambda: (a == a) is True)
+    law('rewrite-equal', 'an identically built shape no longer compares equal (a == b, b == a)', lambda: (a == b) is True and (b == a) is True)
+    ha, hb = guarded(lambda: hash(a))[1], guarded(lambda: hash(b))[1]
+    law('eq_hkey', 'a == b but hash(a) != hash(b)', lambda: isinstance(ha, int) and ha == hb)
+    both = guarded(lambda: {a, b})[1]
+    law('set', 'a and its twin do not collapse in a set / as dict keys', lambda: len(both) == 1 and {a: 1}.get(b) == 1)
+    if rec is not None:
+        law('hash-stable', 'hash(a) changed although no field was modified', lambda: ha == rec['h'])
+        law('hash-stable', 'a is not found in the set / dict it was put into before the calls', lambda: a in rec['set'] and rec['dict'].get(a) == 'v')
+        law('hash-stable', 'the twin of a is not found in the set a was put into before the calls', lambda: b in rec['set'])
+        for (h, st), z in zip(rec['sub'], subshapes(a)):
+            law('hash-stable', f'a hole / member ({type(z).__name__}) hashes differently than before the calls', lambda: hash(z) == h and z in st)
+    law('unchanged', 'a defining field, dt or the properties changed', lambda: snapshot(a) == before)
+    for z, w in zip(subshapes(a), subshapes(b)):
+        law('eq_hkey', f'a hole / member ({type(z).__name__}) and the one of the twin: equal both ways, same hash, one set element',
+            lambda: (z == w) is True and (w == z) is True and hash(z) == hash(w) and len({z, w}) == 1)
+    for name, fn, _ in routes:
+        def rt():
+            x, extra = fn(a)
+            return ((x == a) is True and (a == x) is True and (b == x) is True and hash(x) == ha == hb
+                    and x in both and not extra and snapshot(x) == before)
+        law(name, 'the result is not equal (both ways) to the original and its twin with the same hash, one set element', rt)
+    # multi-shapes: members reordered, the twin (or the twin's members) on the other side
+    if hasattr(a, 'geoshapes'):
+        b2 = build(spec, sb)
+        law('multi', 'the multi-shape does not equal (same hash) the multi-shape of its twin\'s members in reverse order',
+            lambda: (lambda m: (a == m) is True and (m == a) is True and ha == hash(m) and len({a, m}) == 1)(type(a)(b2.geoshapes[::-1], dt=b2.dt)))
+        law('multi', 'the multi-shape of its own members in reverse order does not equal (same hash) the twin',
+            lambda: (lambda m: (b == m) is True and (m == b) is True and hb == hash(m))(type(a)(a.geoshapes[::-1], dt=a.dt)))
+    else:
+        cls = multi_class(a)
+        law('multi', 'multi-shapes [a, other] and [other, twin of a] are not equal both ways with the same hash',
+            lambda: (lambda m1, m2: (m1 == m2) is True and (m2 == m1) is True and hash(m1) == hash(m2) and len({m1, m2}) == 1)
+            (cls([a, build(other)]), cls([build(other), b])))
+    return F
+
+
+def pick_routes(rng):
+    """copy(), and one more route (a pickle protocol, bare or inside a container, copy.copy, copy.deepcopy), by name; all of them
+    are exercised on fresh shapes by round_trip_checks"""
+    return ['s.copy()', rng.choice([r[0] for r in round_trip_routes() if r[0] != 's.copy()'])]
+
+
+def history_checks(spec, styles, props, hash_first, segments, other, route_names=None, every_call=False):
+    """Returns (observed pairs [(a, b, observation)] after each segment, [(clause, text)], calls that answered).
+    every_call: the light judgement after every single call as well (reported for the first call after which it fails)"""
+    routes = [r for r in round_trip_routes() if route_names is None or r[0] in route_names]
+    a, b = build(spec, styles[0], props=_copy.deepcopy(props)), build(spec, styles[1], props=_copy.deepcopy(props))
+    aux = history_aux(spec)
+    before = snapshot(a)
+    rec = history_record(a) if hash_first else None
+    hb = guarded(lambda: hash(b))[1] if every_call else None
+    fails, obs, ok, light = [], [], 0, every_call
+    for n, steps in enumerate(segments):
+        for i, (path, nm, kw) in enumerate(steps):
+            takes, fn = OPS[nm]
+            ok += guarded(lambda: fn(resolve(a, path), dict(kw) if takes else {}, aux))[0] == 'Ok'
+            if light:
+                F = history_light(a, b, rec, hb)
+                if F:
+                    fails += [(c, f'right after call {i + 1} of segment {n + 1}, {json.dumps([path, nm, kw])}: {t}') for c, t in F]
+                    light = False
+        F = history_judge(a, b, rec, before, spec, styles[1], other, routes)
+        fails += [(c, f'after segment {n + 1} of the history: {t}') for c, t in F]
+        o = guarded(lambda: observe_pair(a, b))
+        if o[0] == 'Ok':
+            obs.append((a, b, o[1]))
+        if rec is None and n == 0:
+            rec = guarded(lambda: history_record(a))[1]      # from now on the hash must stay
+            rec = rec if isinstance(rec, dict) else None
+    return obs, fails, ok
+
+
 def main():
     ck = Check('C15')
     ck.build_theories(['theories/Props/C15.vo', 'theories/Corr/ValueK.vo'])
@@ -1152,6 +1438,50 @@ def main():
                         nontrivial.add(json.dumps([specs[i], specs[j]]))
                 ck.count('nudge:' + kind)
 
+    # (c) read-only call histories on one of two twins
+    def history(kind, spec, what, segments, every_call):
+        sty, props, hf = (rng.randrange(3), rng.randrange(3)), rng.choice(PROPS), rng.random() < .7
+        other = plain_spec(rng, {'point': 'point', 'line': 'line'}.get(spec[0], 'box'), holes=0)
+        rts = pick_routes(rng) if not thorough else None
+        m = {'k': 'history', 'a': spec, 'styles': list(sty), 'props': props, 'hash_first': hf, 'segments': segments, 'other': other, 'what': what,
+             'routes': rts, 'every_call': every_call}
+        try:
+            obs, fails, ok = history_checks(spec, sty, props, hf, segments, other, rts, every_call)
+        except Exception as ex:     # noqa
+            obs, fails, ok = [], [('harness', f'the history family stopped: {type(ex).__name__}: {ex}')], 0
+        for a, b, o in obs:
+            add(pair_lit(a, b, o), dict(m, tag='same'))
+        if fails:
+            pure.append(dict(m, calls_that_answered=ok, failures=len(fails),
+                             property_clauses_violated=list({f[0]: f for f in reversed(fails)}.values())[::-1][:12]))
+        if ok:
+            nontrivial.add(json.dumps(['hist', spec, segments]))
+        ck.count(f'history:{kind}:{what}')
+
+    for kind in HKINDS:
+        curved = kind in CURVED_HKINDS
+        # (i) the whole catalogue x resolutions x places on one object, in random order, judged after every call
+        for _ in range((2 if curved else 1) * (1 if not thorough else 4)):
+            what, sp = rng.choice(time_variants(rng, history_spec(rng, kind)))
+            t = build(sp)
+            P = places(t)
+            if not thorough and len(P) > 3:
+                P = [P[0]] + rng.sample(P[1:], 2)
+            P = P + [pth + [x] for pth in P for x in (['copy'], ['polygon'])]
+            steps = []
+            for path in P:
+                for nm, (takes, _f) in OPS.items():
+                    for kw in ([{}, {'k': None}, {'k': rng.choice(KS[:4])}, {'k': rng.choice(KS[4:])}] if takes else [{}]):
+                        steps.append([path, nm, kw])
+            rng.shuffle(steps)
+            cut = sorted(rng.sample(range(1, len(steps)), 2))
+            history(kind, sp, 'every call', [steps[:cut[0]], steps[cut[0]:cut[1]], steps[cut[1]:]], True)
+        # (ii) short random sequences, judged after each of two segments
+        for _ in range((12 if curved else 4) * (1 if not thorough else 6)):
+            what, sp = rng.choice(time_variants(rng, history_spec(rng, kind)))
+            t = build(sp)
+            history(kind, sp, 'random calls', [random_history(rng, t, rng.randint(1, 6)), random_history(rng, t, rng.randint(1, 4))], False)
+
     ck.cov['evaluations'] = len(cases)
     ck.cov['distinct_nontrivial'] = len(nontrivial)
     for i in (0, 30, 400, len(cases) - 1):
@@ -1182,7 +1512,16 @@ def main():
                    'original undisturbed); one-field nudge families of every numeric field of every kind incl. fields of holes and members '
                    '(1/3 ulp, 1e-12..1e-6 relative, chain v, v(1+6e-10), v(1+1.5e-9)) judged against the exact reference (same number or '
                    'not): ==, symmetry, transitivity, eq=>hash, set/dict class counts, multi-shapes over the members; sampled pairs of each '
-                   'family also go through the model on an exact power-of-two grid. '
+                   'family also go through the model on an exact power-of-two grid; '
+                   'read-only call histories: of two identically built twins of every kind (plus wedges from 0 degrees / through north / '
+                   'to 360, polygons with circle / ellipse / ring / wedge holes, multi-polygons of curved members) one receives public '
+                   'read-only calls (to_polygon, to_wkt, to_geojson, bounding_coords, linear_rings, edges, contains / intersects both ways, '
+                   'to_shapely, area, bounds, centroid, circumscribing_circle ... with default, None and explicit k) on itself, a hole, a '
+                   'member, a copy() or its drawn polygon - the whole catalogue in random order judged after every call, and short random '
+                   'sequences judged after each of two segments: equal to the twin both ways, same hash, hash as before the calls (found in '
+                   'the set / dict it was put into), copy() and a pickle / copy-module route equal with equal hash, set / dict collapse, '
+                   'multi-shapes with reordered members using the twin, the same for every hole / member; the observed pair also goes '
+                   'through the model. '
                    'non-trivial = distinct (base, variant) with a re-written-but-equal or one-field-different variant',
               assumptions=['coordinates, radii, axes, angles are multiples of 1/4 (exact doubles), in the one-field-nudge pairs arbitrary doubles written exactly '
                            'on a finer power-of-two grid (the model is homogeneous in the unit); NaN and the antimeridian edge adjustment are outside the model',
@@ -1206,6 +1545,10 @@ def replay(path):
     elif m.get('k') == 'roundtrip':
         cs, fails = round_trip_checks(m['a'], m.get('style', 0), m.get('props'), m.get('warm', False))
         print('property clauses violated now:', *fails, sep='\n  ')
+    elif m.get('k') == 'history':
+        obs, fails, ok = history_checks(m['a'], m.get('styles', [0, 0]), m.get('props'), m.get('hash_first', True), m['segments'], m['other'], m.get('routes'), m.get('every_call', False))
+        print(f'{ok} calls of the history answered; observations of (a, twin) after each segment:', *[o for _, _, o in obs], sep='\n  ')
+        print(f'property clauses violated now ({len(fails)}):', *fails, sep='\n  ')
     elif m.get('k') == 'nudge':
         import random
         fails = nudge_family(random.Random(0), m['base'], tuple(m['path']), m['field'], m.get('vals'), m.get('other'))[0]
